@@ -549,6 +549,7 @@ def den_src(prog, prefix="", anon_start=0):
             if st[0] == "seq":
                 name, items, decl = st[1], st[2], (st[3][1] if st[3] else None)
                 if name in env: raise Bad()
+                if name in [x[1] for x in structs]: raise Bad()      # a sequence may not take the name of a structure
                 if len(items) == 1 and items[0][0] == "nuc":
                     parts = items[0][1]
                     nw = sum(1 for p in parts if p[0] == "?")
@@ -570,6 +571,7 @@ def den_src(prog, prefix="", anon_start=0):
             elif st[0] == "struct":
                 opt, name, names, domain, note = st[1:6]
                 if name in [x[1] for x in structs]: raise Bad()
+                if name in env or name.startswith("_Anon"): raise Bad()   # nor a structure the name of a sequence / a reserved name
                 if any(n not in strands for n in names): raise Bad()
                 s = hu_expand(note[1]) if note[0] == "hu" else "".join(sym * n for n, sym in note[1])
                 if note[0] == "ext" and not balanced(s): raise Bad()
